@@ -61,7 +61,7 @@ def run(ctx):
     return T.result(
         "fixed look-alike / case / latest-wins cases against the property text; exhaustive one-response and two-response histories "
         "plus 300 (6000) random histories of 2-4 responses over names {a,b,ab} x values x domains {ex.com,.ex.com,EX.com,sub.ex.com,"
-        "other.org,none}, each against 11 targets x 4 caller cookies (two of them occurring inside typical jar contents): real SimpleCookieJar and _get_handshake_headers vs the verified "
+        "other.org,none}, each against 13 targets (inside, outside, look-alike by suffix, by prefix and by a replaced dot) x 4 caller cookies (two of them occurring inside typical jar contents): real SimpleCookieJar and _get_handshake_headers vs the verified "
         "model and vs Spec.spec_header (evaluated by coqc vm_compute)",
         what_is_proved="see Properties/C20.v")
 
